@@ -34,10 +34,10 @@ def chain(maxd, hops=1, **c):
 FAMILIES = {
     "Compose": fam("MC_Compose",
                    quick=[ex(2, NilOps="= TRUE"), ex(3, Ops="<- OpsW"), sim(1500, 6, design=False, NSlots="= 3")],
-                   thorough=[ex(3), ex(4, Ops="<- OpsW"), sim(30000, 8, NSlots="= 3")]),
+                   thorough=[ex(2, NilOps="= TRUE"), chain(3, hops=0), ex(4, Ops="<- OpsW"), sim(30000, 8, NSlots="= 3")]),
     "Transfer": fam("MC_Transfer",
                     quick=[chain(4, hops=2), sim(1500, 6, design=False, NSlots="= 2")],
-                    thorough=[chain(4, hops=2), ex(3), sim(30000, 8, NSlots="= 3")]),
+                    thorough=[chain(4, hops=2), sim(30000, 8, NSlots="= 3")]),
     "Marks": fam("MC_Marks",
                  quick=[ex(2), ex(3, Ops="<- OpsPrefix", Shapes="<- ShapesPrefix"),
                         sim(1500, 6, design=False, NSlots="= 3"),
@@ -47,7 +47,7 @@ FAMILIES = {
     "Annot": fam("MC_Annot",
                  quick=[chain(4, hops=2), sim(1500, 6, design=False, NSlots="= 2"),
                         sim(1500, 10, design=False, NSlots="= 1", Ops="<- OpsHints", Shapes2="<- ShapesH")],
-                 thorough=[ex(4), chain(5, hops=2), sim(30000, 8, NSlots="= 2"),
+                 thorough=[ex(3), chain(5, hops=2), sim(30000, 8, NSlots="= 2"),
                            sim(20000, 12, design=False, NSlots="= 1", Ops="<- OpsHints", Shapes2="<- ShapesH")]),
     "Hidden": fam("MC_Hidden",
                   quick=[ex(2), sim(1500, 6, design=False, NSlots="= 2", NilOps="= TRUE")],
@@ -65,7 +65,7 @@ FAMILIES = {
                                Shapes2="<- Shapes2R")]),
     "Format": fam("MC_Format", full=True,
                   quick=[chain(2, hops=0), sim(400, 5, design=False, NSlots="= 2")],
-                  thorough=[ex(2), chain(3, hops=0, Shapes="<- ShapesL"), sim(8000, 7, design=False, NSlots="= 3")]),
+                  thorough=[ex(2), chain(2, hops=0), sim(8000, 7, design=False, NSlots="= 3")]),
     "Faults": dict(module="MC_Faults", spec="FSpec", pre="regdump", constants=dict(BASE, NSlots="= 1"),
                    invariants=["Emit", "DecTotal"],
                    tiers=dict(quick=dict(runs=[dict(constants={"MaxD": "= 1", "NFuzz": "= 300"})]),
@@ -85,7 +85,7 @@ FAMILIES = {
                 thorough=[chain(4, hops=2), sim(10000, 8, design=False, NSlots="= 3", NilOps="= TRUE")]),
     "Compat": fam("MC_Compat",
                   quick=[ex(2), chain(3, hops=0), sim(1500, 6, design=False, NSlots="= 3")],
-                  thorough=[ex(3), chain(4, hops=0), sim(30000, 8, design=False, NSlots="= 3")]),
+                  thorough=[ex(3), chain(3, hops=0), sim(30000, 8, design=False, NSlots="= 3")]),
     "Concurrent": dict(module="MC_Concurrent", spec="CSpec", race=True,
                        constants=dict(BASE, NSlots="= 2", COps="<- COpsQuick", Storm="= 16", BuildD="= 4"),
                        invariants=["Emit"],
